@@ -101,13 +101,10 @@ theorem preLoop_startAttr (e : Env) (σ : St) (h : StartAttr e σ) : StartAttr e
 
 /-! ### the pick loop -/
 
-/-- a forward effort task with the single selected resource `r`; `r` is a leaf without limits (own or of a group), the task and
-    its containers carry no limits, and the task has no start of its own -/
+/-- a forward effort task with the single selected resource `r`, a leaf; the task has no start of its own -/
 structure EligU (e : Env) (t r : Nat) : Prop where
   el : Elig e t r
   nostart : (e.taskD t).startProvided = false
-  rl : resLimitIds e r = []
-  tl : taskLimitIds e t = []
   rleaf : (e.resD r).leaf = true
 
 /-- the base of the dependency bound: the project start, or a later start inherited from a container -/
@@ -121,7 +118,7 @@ def boundSlot (e : Env) (σ : St) (t : Nat) : Int := (cursorOf e (earliestStart 
 
 def NoIdleAt (e : Env) (σ : St) (t r : Nat) : Prop :=
   ∀ L, usageOf (σ.led.get r L).usage t ≠ none →
-    ∀ i, boundSlot e σ t ≤ i → i ≤ L → e.onShift r i = true → e.leaveMark r i = false → Has r i σ
+    ∀ i, boundSlot e σ t ≤ i → i ≤ L → e.onShift r i = true → e.leaveMark r i = false → Has r i σ ∨ Exhausted e σ t r i
 
 def DoneIdle (e : Env) (σ : St) : Prop :=
   ∀ t r, EligU e t r → (σ.tst t).done = true → (σ.tst t).forward = true →
@@ -199,9 +196,12 @@ theorem idleInv_step (e : Env) (wf : WF e) (σ : St) (tasks : List Nat) (t0 : Na
         rw [hstart]
         cases (e.taskD t).start <;> rfl
       have := scheduleTask_no_idle_interval e wf σ t r h.inv h.solid hel.el (h.inrange t hmem) hfw hnd0 (hclean0 r)
-        hel.rl hel.tl hel.rleaf hok L (by rw [updateContainers_led] at hL; exact hL) i (by rw [hic]; exact hbi) hiL hon hnl
-      unfold Has at this ⊢
-      rw [updateContainers_led]; exact this
+        hel.rleaf hok L (by rw [updateContainers_led] at hL; exact hL) i (by rw [hic]; exact hbi) hiL hon hnl
+      rcases this with h1 | h1
+      · left; unfold Has at h1 ⊢; rw [updateContainers_led]; exact h1
+      · right
+        exact exhausted_closed_step (fun lid ro hr =>
+          closed_updateContainers (refuses_closed e lid i ro) _ hr) h1
     · have htsame := hsame t heq (Or.inl hel.el.leaf)
       rw [htsame] at hd hfw
       obtain ⟨hdeps, hidle⟩ := h.ok t r hel hd hfw
@@ -213,14 +213,20 @@ theorem idleInv_step (e : Env) (wf : WF e) (σ : St) (tasks : List Nat) (t0 : Na
       intro L hL i hbi hiL hon hnl
       rw [boundSlot_congr e σ _ t (fun dp hdp => by rw [htgt dp hdp]; exact ⟨rfl, rfl⟩)] at hbi
       rw [updateContainers_led, scheduleTask_same e σ t0 t (Ne.symm heq) r L] at hL
-      have h1 := hidle L hL i hbi hiL hon hnl
-      have h2 := closed_scheduleTask (has_closed e r i) wf σ t0 h.inv hlf0 trivial h1
-      unfold Has at h2 ⊢
-      rw [updateContainers_led]; exact h2
+      rcases hidle L hL i hbi hiL hon hnl with h1 | h1
+      · left
+        have h2 := closed_scheduleTask (has_closed e r i) wf σ t0 h.inv hlf0 trivial h1
+        unfold Has at h2 ⊢
+        rw [updateContainers_led]; exact h2
+      · right
+        exact exhausted_closed_step (fun lid ro hr =>
+          closed_updateContainers (refuses_closed e lid i ro) _
+            (closed_scheduleTask (refuses_closed e lid i ro) wf σ t0 h.inv hlf0 trivial hr)) h1
 
-theorem DoneIdle.of_eq {e : Env} {σ σ' : St} (hl : σ'.led = σ.led) (ht : σ'.ts = σ.ts) (h : DoneIdle e σ) : DoneIdle e σ' := by
-  unfold DoneIdle NoIdleAt boundSlot earliestStart Has St.tst at *
-  rw [hl, ht]; exact h
+theorem DoneIdle.of_eq {e : Env} {σ σ' : St} (hl : σ'.led = σ.led) (ht : σ'.ts = σ.ts) (hc : σ'.cnt = σ.cnt)
+    (h : DoneIdle e σ) : DoneIdle e σ' := by
+  unfold DoneIdle NoIdleAt boundSlot earliestStart Has Exhausted Refuses limitOk St.tst at *
+  rw [hl, ht, hc]; exact h
 
 theorem pickLoop_doneIdle (e : Env) (wf : WF e) (fuel : Nat) (tasks failed : List Nat) (σ : St)
     (h : IdleInv e σ tasks) : DoneIdle e (pickLoop e fuel tasks failed σ).1 := by
@@ -237,7 +243,7 @@ theorem pickLoop_doneIdle (e : Env) (wf : WF e) (fuel : Nat) (tasks failed : Lis
           have := List.find?_some hfind; simpa using this
         exact ih _ _ _ (idleInv_step e wf σ tasks t0 h hmem hready)
       · split
-        · exact DoneIdle.of_eq (σ := σ) rfl rfl h.ok
+        · exact DoneIdle.of_eq (σ := σ) rfl rfl rfl h.ok
         · exact h.ok
 
 /-! ### the scenario -/
@@ -259,14 +265,15 @@ theorem scheduleScenario_doneIdle (e : Env) (wf : WF e) (σ : St) (hinv : Inv e 
   have h3 := pickLoop_doneIdle e wf ((todoOf e (preLoop e σ)).length + 1) (todoOf e (preLoop e σ)) [] (preLoop e σ) h2
   split
   · exact h3
-  · exact DoneIdle.of_eq (σ := (pickLoop e ((todoOf e (preLoop e σ)).length + 1) (todoOf e (preLoop e σ)) [] (preLoop e σ)).1) rfl rfl h3
+  · exact DoneIdle.of_eq (σ := (pickLoop e ((todoOf e (preLoop e σ)).length + 1) (todoOf e (preLoop e σ)) [] (preLoop e σ)).1) rfl rfl rfl h3
 
 /-- **C08, forward mode, end to end.**  After scheduling any well-formed project with a well-formed task tree: for every
-    completed forward effort task `t` without a start of its own whose single selected resource `r` is a leaf without limits
-    (the task and its containers carry none either), every predecessor is scheduled, and between the slot of the dependency
-    bound — the latest of the project start, an inherited start and every predecessor's (start | end) + gap, all taken from the
-    FINAL schedule — and any slot `L` in which `t` is booked, every slot in which `r` is on shift and not on leave carries an
-    entry in the final ledger: no working, unbooked slot is left between the bound and the end of the task. -/
+    completed forward effort task `t` without a start of its own whose single selected resource `r` is a leaf, every
+    predecessor is scheduled, and between the slot of the dependency bound — the latest of the project start, an inherited
+    start and every predecessor's (start | end) + gap, all taken from the FINAL schedule — and any slot `L` in which `t` is
+    booked, every slot in which `r` is on shift and not on leave carries an entry in the final ledger, unless a limit of the
+    resource (own or of a group) or of the task (own or of a container) refuses it in the final state (its counter for that
+    day / week is at the limit): no working, unbooked slot within the limits is left between the bound and the end. -/
 theorem runScenario_doneIdle (e : Env) (wf : WF e) (tr : Tree e) : DoneIdle e (runScenario e) := by
   unfold runScenario
   have hprep : Inv e (prepare e (initState e)) := prepare_inv e _ (inv_init e wf)
@@ -286,8 +293,9 @@ theorem runScenario_doneIdle (e : Env) (wf : WF e) (tr : Tree e) : DoneIdle e (r
   rw [boundSlot_congr e (scheduleScenario e (prepare e (initState e))) _ t
     (fun dp _ => ⟨(hsd dp.target).1, (hsd dp.target).2.1⟩)] at hbi
   rw [finishScenario_led] at hL
-  have := hidle L hL i hbi hiL hon hnl
-  unfold Has at this ⊢
-  rw [finishScenario_led]; exact this
+  rcases hidle L hL i hbi hiL hon hnl with h1 | h1
+  · left; unfold Has at h1 ⊢; rw [finishScenario_led]; exact h1
+  · right
+    exact exhausted_closed_step (fun lid ro hr => closed_finishScenario (refuses_closed e lid i ro) _ hr) h1
 
 end SP
